@@ -44,6 +44,7 @@ type c11Case struct {
 	Enc    bool   `json:"use_encoded_path,omitempty"`
 	Uni    bool   `json:"unicode_white_space_alphabet,omitempty"` // square over {'/','a',' ',U+00A0,U+3000,U+0085,U+2003}, <= 3 characters
 	Redisp bool   `json:"redispatched_with_handlecontext,omitempty"`
+	Late   bool   `json:"option_applied_with_WithOptions_after_New,omitempty"`
 }
 
 var c11UniAlphabet = []rune{'/', 'a', ' ', '\u00a0', '\u3000', '\u0085', '\u2003'}
@@ -139,6 +140,10 @@ func c11Gen(tier string, emit func(c11Case)) {
 			emit(c11Case{Kind: "square", Strict: strict, P: p, L: 3, Uni: true})
 		}
 	}
+	// the option given to WithOptions after New() instead of to New()
+	for _, p := range c11Get(4).strs {
+		emit(c11Case{Kind: "square", Strict: true, P: p, L: 4, Late: true})
+	}
 	for _, strict := range []bool{false, true} {
 		// long paths: every length up to 300 (lookup keys, buffers and limits must not depend on the length)
 		for lo := 1; lo <= 300; lo += 20 {
@@ -184,18 +189,27 @@ func c11Run(c c11Case, st *fw.Stats) []fw.Viol {
 		if c.Uni {
 			set = c11GetUni()
 		}
+		sm := fmt.Sprintf("strict=%v", c.Strict)
+		if c.Late {
+			sm += " (applied with WithOptions after New())"
+		}
 		var r *rux.Router
 		var rt *rux.Route
 		if pv := try(func() {
-			r = rux.New(c11Opts(c.Strict)...)
+			if c.Late {
+				r = rux.New()
+				r.WithOptions(c11Opts(c.Strict)...)
+			} else {
+				r = rux.New(c11Opts(c.Strict)...)
+			}
 			rt = r.GET(c.P, h)
 		}); pv != nil {
-			add("register:panic", fmt.Sprintf("strict=%v: GET(%q) panicked: %v", c.Strict, c.P, pv))
+			add("register:panic", fmt.Sprintf("%s: GET(%q) panicked: %v", sm, c.P, pv))
 			return viols
 		}
 		np := refmodel.Norm(c.P, c.Strict)
 		if rt.Path() != np {
-			add("register:path", fmt.Sprintf("strict=%v: route registered as %q has path %q, normal form is %q", c.Strict, c.P, rt.Path(), np))
+			add("register:path", fmt.Sprintf("%s: route registered as %q has path %q, normal form is %q", sm, c.P, rt.Path(), np))
 		}
 		norms := set.norm[b2i(c.Strict)]
 		for qi, q := range set.strs {
@@ -206,18 +220,18 @@ func c11Run(c c11Case, st *fw.Stats) []fw.Viol {
 			}
 			var got bool
 			if pv := try(func() { m, _, _ := r.Match("GET", q); got = m != nil }); pv != nil {
-				add("lookup:panic", fmt.Sprintf("strict=%v: route %q: Match(GET,%q) panicked: %v", c.Strict, c.P, q, pv))
+				add("lookup:panic", fmt.Sprintf("%s: route %q: Match(GET,%q) panicked: %v", sm, c.P, q, pv))
 				continue
 			}
 			if got != want {
-				add(fmt.Sprintf("lookup:reach:want=%v", want), fmt.Sprintf("strict=%v: route registered as %q (normal form %q): request path %q (normal form %q) reaches it = %v, expected %v", c.Strict, c.P, np, q, norms[qi], got, want))
+				add(fmt.Sprintf("lookup:reach:want=%v", want), fmt.Sprintf("%s: route registered as %q (normal form %q): request path %q (normal form %q) reaches it = %v, expected %v", sm, c.P, np, q, norms[qi], got, want))
 			}
 			// a HEAD request is served by the GET route: the fallback lookup must normalise the path in the same way
 			var gotH bool
 			if pv := try(func() { m, _, _ := r.Match("HEAD", q); gotH = m != nil }); pv != nil {
-				add("lookup:panic", fmt.Sprintf("strict=%v: route %q: Match(HEAD,%q) panicked: %v", c.Strict, c.P, q, pv))
+				add("lookup:panic", fmt.Sprintf("%s: route %q: Match(HEAD,%q) panicked: %v", sm, c.P, q, pv))
 			} else if gotH != want {
-				add(fmt.Sprintf("lookup:head-fallback:want=%v", want), fmt.Sprintf("strict=%v: GET route registered as %q (normal form %q): HEAD request path %q (normal form %q) reaches it = %v, expected %v", c.Strict, c.P, np, q, norms[qi], gotH, want))
+				add(fmt.Sprintf("lookup:head-fallback:want=%v", want), fmt.Sprintf("%s: GET route registered as %q (normal form %q): HEAD request path %q (normal form %q) reaches it = %v, expected %v", sm, c.P, np, q, norms[qi], gotH, want))
 			}
 		}
 		if st.WantSample() && len(c.P) >= 4 {
@@ -558,7 +572,7 @@ func c11Run(c c11Case, st *fw.Stats) []fw.Viol {
 var c11Spec = fw.Spec[c11Case]{
 	ID:    "C11",
 	Level: "model_checking",
-	Rule: "complete enumeration: ALL strings of length <=L over {'/',' ','.','a','b',TAB} as registered path P and as request path Q - the full P x Q square in both StrictLastSlash modes (and again for all strings of <=3 characters over {'/','a',space,U+00A0,U+3000,U+0085,U+2003}) (one evaluation = one GET and one HEAD lookup of Q on a router holding GET P; reach <=> Norm(Q)==Norm(P)); " +
+	Rule: "complete enumeration: ALL strings of length <=L over {'/',' ','.','a','b',TAB} as registered path P and as request path Q - the full P x Q square in both StrictLastSlash modes (and again for all strings of <=3 characters over {'/','a',space,U+00A0,U+3000,U+0085,U+2003}, and for all strings of <=4 characters with StrictLastSlash applied through WithOptions after New()) (one evaluation = one GET and one HEAD lookup of Q on a router holding GET P; reach <=> Norm(Q)==Norm(P)); " +
 		"all G x P x Q over strings of length <=3 for group prefixes and all nested G1 x G2 x P over strings of length <=2; all raw paths of <=4 tokens over {/,a,b,%2F,%2f,%20,space,|,%7C}, each with four RequestURI values (absent, equal, stale prefix, *) under both UseEncodedPath settings (directly and handed on by a front router with HandleContext); 8 dynamic routes with dots in their literal text against all request strings of <=6 characters over {/,.,a,b,x}; all request histories of <=3 over 8 paths with and without trailing slashes on caching routers (capacity 1, 2, 8) in both StrictLastSlash modes; static, multi-segment and dynamic routes of every length 1..300 bytes under three methods with nine request variations each; InterceptAll(p) with the route registered as p for all strings p of length <=3, in every option order, against all requests of length <=2; non-trivial = a (P,Q) pair that must reach the route / an escaped path that differs from the decoded one",
 	Assume: []string{"alphabet of 6 characters; L=5 quick, 6 thorough", "net/url's EscapedPath is taken as the definition of 'the escaped path'"},
 	Bounds: func(tier string) map[string]any {
